@@ -1,3 +1,4 @@
+@property
 def spec(self):
     if hasattr(self, 'delay_'):
         return self.delay_
